@@ -69,6 +69,10 @@ SHADOW = [  # a quantified variable with the name of a parameter (the parameter 
 ]
 
 
+REPEATED_TERM = [  # one fluent term twice in one expression
+    ("(and (>= (* (g ?x) (g ?x)) (g ?y)))", "(and (assign (g ?x) (+ (g ?x) (g ?y))))"),
+    ("(and)", "(and (when (> (+ (h ?x ?y) (h ?x ?y)) 1) (increase (g ?y) (* (g ?y) (g ?x)))))"),
+]
 NUMERAL_FIRST = [  # a numeral as the first operand of a comparison / arithmetic node, the renamed term second
     ("(and (<= 1 (g ?x)))", "(and (increase (f) (* 2 (g ?x))))"),
     ("(and (> 2 (+ (f) (g ?y))))", "(and (assign (g ?x) (- 10 (g ?y))))"),
@@ -100,6 +104,8 @@ def renamings(params):
         out.append(("partial", {**{p: p for p in params}, params[-1]: "?u"}))
     if len(params) >= 3:
         out.append(("chain3", {params[0]: params[1], params[1]: params[2], params[2]: "?u"}))
+    # new names written with upper-case letters (names are case-insensitive in PDDL; the API takes any string)
+    out.append(("upper-case", {p: "?" + f.upper() for p, f in zip(params, ["uu", "vv", "kk"])}))
     # onto the name a quantifier of the corpus binds (?z): the bound variable must not capture the parameter
     out.append(("onto-bound-name", {**{p: p for p in params}, params[0]: "?z"}))
     if len(params) >= 2:
@@ -136,6 +142,8 @@ def cases(tier):
         progs.append(vdom.program("xy", pre, eff, ["twins"]))
     for pre, eff in SHADOW:
         progs.append(vdom.program("xy", pre, eff, ["shadow-param"]))
+    for pre, eff in REPEATED_TERM:
+        progs.append(vdom.program("xy", pre, eff, ["repeated-term"]))
     for pre, eff in CONSTANT_SECOND:
         progs.append(vdom.program("xy", pre, eff, ["constant-second"]))
     for pre, eff in NUMERAL_FIRST + TWO_BOUND:
